@@ -263,6 +263,22 @@ def run_program(tier, idx, prog=None, plan=None, seed=None):
                         ent['line'].update(inner=dict(typed=bool(io.get('typed')), flat=io.get('flat', True), mark=sent if io.get('sentinel') else None),
                                            tupTy=I(tuple))
                     rec['keys'].append(ent)
+                # --- a call that Python accepts, with hashable arguments, must have a key: the standard decorators raise what
+                #     key generation raises, so the caller gets an exception instead of the function's result (C01)
+                def _hashable(v):
+                    try: hash(v); return True
+                    except TypeError: return False
+                if rec['bind'] is not None and all(_hashable(v) for v in list(a) + list(k.values())):
+                    tags['valid-hashable-call'] += 1
+                    dent = rec['keys'][-1] if rec['keys'] else None
+                    if 'exc' in rec['keygen'] or (dent is not None and 'exc' in dent):
+                        stage = '_keygen' if 'exc' in rec['keygen'] else 'keymap'
+                        viol.append(dict(prop='C01', sig=dict(kind='valid-call-has-no-key', stage=stage, exc=rec['keygen'].get('exc') or dent['exc'],
+                                                              param_named_self=bool(uk is not None and 'self' in uk), kind_of_callable=prog['kind'],
+                                                              no_named_params=(prog['npos'] == 0 and prog['nkw'] == 0)),
+                                         msg='%s%r ignore=%r: the valid call %r %r has no key (%s raised %s); _keygen gave %.200r' % (
+                                             kms[0][0], kms[0][1], ign, rec['args'], rec['kw'], stage, rec['keygen'].get('exc') or dent['exc'], (ua, uk)),
+                                         item=dict(ci=ci)))
                 group_keys.append((g, rec))
                 recs.append(rec)
             # ---------------- property monitors on the implementation's own keys
@@ -490,7 +506,7 @@ PROP_DIV = {'C09': ('_keygen', 'raw key', 'encoded key', 'bind(spec) vs inspect.
             'C19': ('validate', 'bind(spec) vs inspect.signature.bind'), 'C01': ('raw key', 'encoded key')}
 # C01 (transparency) presupposes an information-preserving key: two calls that bind different values must not share a key, or the
 # second is answered with the first one's result. Those are C10's monitors; the C01 check runs them too.
-ALSO = {'C01': 'C10'}
+ALSO = {'C01': ('C10', 'C01')}
 
 
 def explore(prop, tier, n=None, offset=0):
@@ -506,7 +522,7 @@ def explore(prop, tier, n=None, offset=0):
         tags.update(q['tags'])
         if q['tags'].get('respell') or q['tags'].get('mutate'): nontrivial += 1
         for v in q['viol']:
-            if v['prop'] == ALSO.get(prop, prop):
+            if v['prop'] in ALSO.get(prop, (prop,)):
                 ci = v.get('item', {}).get('ci')
                 v = dict(v, prop=prop)
                 viols.append(dict(v, i=0, cfg=dict(tier=tier, idx=q['idx'], seed=SEED), ops=q['prog'], src=q['src'],
@@ -522,7 +538,7 @@ def replay(prop, obj):
     q = run_program(obj['cfg']['tier'], obj['cfg']['idx'], seed=obj['cfg'].get('seed', 0), prog=obj.get('program'), plan=obj.get('plan'))
     if q['err']: raise NoVerdict(q['err'])
     divs = [d for d in analyse(prop, [q]) if d['detail']['what'] in PROP_DIV.get(prop, ())]
-    return dict(violations=[dict(prop=prop, sig=v['sig'], msg=v['msg'], i=0) for v in q['viol'] if v['prop'] == ALSO.get(prop, prop)],
+    return dict(violations=[dict(prop=prop, sig=v['sig'], msg=v['msg'], i=0) for v in q['viol'] if v['prop'] in ALSO.get(prop, (prop,))],
                 divergence=divs[0]['detail'] if divs else None)
 
 
